@@ -304,16 +304,20 @@ def run_case(case):
         g = MetadataGenerator(str_types_registry=reg)
         register_datetime_classes(reg)  # after the generator exists
         g2 = MetadataGenerator(str_types_registry=driver.make_str_registry(NAMES))
+        g3 = MetadataGenerator(str_types_registry=driver.make_str_registry(NAMES[:3]))
         ss = case["strings"]
         try:
             forms = ([{"a": x, "b": [x]} for x in ss], [{"a": ss}])
             for samples in forms:
                 t1 = g.generate(*samples)
                 t2 = g2.generate(*samples)
-                d1, d2 = repr(dump_type(t1, lambda m: 0)), repr(dump_type(t2, lambda m: 0))
-                if d1 != d2:
-                    W("late-registered-types-treated-differently", f"strings {ss!r}: generator created before register_datetime_classes() gives {t1}, "
-                                                                   f"generator created after gives {t2}")
+                t3 = g3.generate(*samples)
+                d1, d2, d3 = (repr(dump_type(t, lambda m: 0)) for t in (t1, t2, t3))
+                # either consistent view is accepted: the registry as it is at call time, or as it was when the generator was made
+                if d1 != d2 and d1 != d3:
+                    W("late-registered-types-treated-inconsistently",
+                      f"strings {ss!r}: a generator created before register_datetime_classes() gives {t1}; with the types registered from "
+                      f"the start the result is {t2}, without them {t3}")
                     break
         except Exception as e:
             W(f"detection-raises:{type(e).__name__}", f"{type(e).__name__}: {e}")
